@@ -82,7 +82,7 @@ func c16Check(w *mc.Worker, spec *sysgen.Spec, dir string) int {
 		if !spec.NoDieID {
 			eq("cpu-die", name+".DieID", fmt.Sprint(cpu.DieID()), fmt.Sprint(c.Die))
 		}
-		eq("cpu-core", name+".CoreID", fmt.Sprint(cpu.CoreID()), fmt.Sprint(c.Core))
+		eq("cpu-core", name+".CoreID", fmt.Sprint(cpu.CoreID()), fmt.Sprint(c.CoreFile))
 		eq("cpu-cluster", name+".ClusterID", fmt.Sprint(cpu.ClusterID()), fmt.Sprint(c.Cluster))
 		eq("cpu-threads", name+".ThreadCPUSet", cpu.ThreadCPUSet().String(), c16ints(c.Threads))
 		if spec.ECores != nil {
@@ -270,6 +270,8 @@ func c16Family(thorough bool) []*sysgen.Spec {
 								return true
 							},
 							func(s *sysgen.Spec) bool { s.L3 = "package"; s.ClusterCores = 2; s.L2PerCluster = true; return c > 1 },
+							func(s *sysgen.Spec) bool { s.CoreIDPerDie = true; return d > 1 },
+							func(s *sysgen.Spec) bool { s.CoreIDPerDie = true; s.AdjacentHT = true; s.L3 = "die"; return d > 1 && t > 1 },
 							func(s *sysgen.Spec) bool { s.L3 = "none"; return true },
 							func(s *sysgen.Spec) bool { s.NoCaches = true; return true },
 							func(s *sysgen.Spec) bool {
